@@ -44,7 +44,7 @@ def _apply(patch, dst):
     return p.returncode == 0, (p.stdout + p.stderr)[-500:]
 
 
-def run_one(mid, patch, props, runs=None, workers=4):
+def run_one(mid, patch, props, runs=None, workers=4, stop_early=True):
     root = _scratch_root() / ('%s-%d' % (mid, os.getpid()))
     if root.exists():
         shutil.rmtree(root)
@@ -61,8 +61,9 @@ def run_one(mid, patch, props, runs=None, workers=4):
                        PHYLIB_VERIF_EVIDENCE_DIR=str(root / 'evidence'),
                        PHYLIB_VERIF_REPLAY_DIR=str(root / 'replays'),
                        PHYLIB_VERIF_SCRATCH=str(root / 'scratch'),
-                       VERIF_WORKERS=str(workers), VERIF_TIER='quick',
-                       VERIF_STOP_ON_VIOLATION='1')
+                       VERIF_WORKERS=str(workers), VERIF_TIER='quick')
+            if stop_early:
+                env['VERIF_STOP_ON_VIOLATION'] = '1'
             cmd = [str(VERIF / 'vcheck'), 'run', prop, '--tier', 'quick']
             if runs:
                 cmd += ['--runs', str(runs)]
@@ -112,7 +113,8 @@ def run_seeded(only=None):
 def _run_items(items, title):
     results = []
     with ThreadPoolExecutor(max_workers=4) as ex:
-        futs = [ex.submit(run_one, mid, patch, props) for mid, patch, props, neg in items]
+        futs = [ex.submit(run_one, mid, patch, props, stop_early=not neg)
+                for mid, patch, props, neg in items]
         for f, it in zip(futs, items):
             r = f.result()
             r['negative_control'] = it[3]
